@@ -106,6 +106,14 @@ def eval_api_properties(prop, ctx, records, limit):
             bad.append({"kind": "input", "pattern": info["pattern"], "text": t, "check": "harness line", "impl": line[:300]})
             continue
         d = dict(zip(names, vals))
+        wr = [(k, v) for k, v in d.items() if "!WRAPPER" in v]
+        if wr:
+            # the harness found a convenience entry point (find, captures, replace*, from_str, Index,
+            # a Replacer impl, an iterator accessor) that disagrees with the entry point it wraps
+            if prop in ("C09", "C10", "C11", "C16", "C05", "C08"):
+                bad.append({"kind": "input", "pattern": info["pattern"], "text": t, "limit": limit, "check": "wrapper entry point = the entry point it wraps: " + wr[0][1].split("!WRAPPER:")[1],
+                            "impl": wr[0][1], "reference": "probe " + wr[0][0] + " without the marker"})
+            continue
         fi = parse_items(d["find_iter"])
         ci = parse_items(d["caps_iter"])
         tlen = len(tb)
